@@ -23,6 +23,7 @@ def gen_system(rng):
     mode = rng.choice(["none", "all", "some"]) if nlooms > 1 else rng.choice(["none", "all"])
     looms = []
     tid, pid = 1000, 50
+    used_tids, used_pids = set(), set()
     rk = list(range(40))
     rng.shuffle(rk)
     names = rng.sample(["zeta", "alpha.x", "mid", "Beta", "n10", "n9"], nlooms)
@@ -33,9 +34,24 @@ def gen_system(rng):
         ranked = mode == "all" or (mode == "some" and li == 0)
         for _ in range(rng.randint(1, 3)):
             nt = rng.randint(1, 4)
-            tids = rng.sample(range(tid, tid + 50), nt)
+            if rng.random() < 0.3:
+                # thread ids that straddle a change of decimal width (the kernel's
+                # counter passing 9999 -> 10000 ...): numeric and string order differ
+                edge = 10 ** rng.randint(1, 6)
+                pool = [e for e in range(edge - 6, edge + 6) if e > 0 and e not in used_tids]
+                tids = rng.sample(pool, nt)
+            else:
+                tids = rng.sample(range(tid, tid + 50), nt)
+            used_tids.update(tids)
             tid += 50
-            p = {"pid": pid + rng.randint(0, 5), "appid": rng.randint(1, 5), "threads": sorted(tids)}
+            # process ids, too, are compared as numbers
+            ppid = pid + rng.randint(0, 5)
+            if rng.random() < 0.3:
+                ppid = rng.choice([7, 98, 99, 100, 101, 9998, 10002])
+            while ppid in used_pids:
+                ppid += 1
+            used_pids.add(ppid)
+            p = {"pid": ppid, "appid": rng.randint(1, 5), "threads": sorted(tids)}
             pid += 10
             if ranked:
                 p["rank"], p["nranks"] = rk.pop(), 64
